@@ -496,10 +496,11 @@ def apply_edit(kind, h, ed, cn=lambda c: c):
         def setv(c, k, v): h[c][k] = v
     op = ed["op"]
     if op == "reattach":
+        base = int(getv("id", 0))     # row 0 of a sorted result is its root; an earlier "renumber" edit has shifted every id by its offset
         for k, to in ed["moves"]:
-            cur = int(getv("pid", k))
-            new = 0 if to == "root" else k - 1 if to == "prev" else int(getv("pid", cur)) if cur > 0 else 0
-            setv("pid", k, max(new, 0))
+            cur = int(getv("pid", k)) - base          # ROW of the current parent (rows = ids - base in a sorted result)
+            new = 0 if to == "root" else k - 1 if to == "prev" else (int(getv("pid", cur)) - base) if cur > 0 else 0
+            setv("pid", k, base + max(new, 0))
     elif op == "retype" and kind != "impl":
         setv("type", ed["k"], ed["v"])
     elif op == "renumber":
